@@ -8,8 +8,8 @@ Case: {"t": tensor, "steps": [{"key": KEY, "vkind": .., "value": ..}, ...], "def
 Specification of one step on the dense shadow x (NumPy basic-index assignment):  the key must be well formed for x
 (at most one Ellipsis, not more entries than modes, integers in range) and a non-scalar value must have exactly the
 selected shape; then x[key] = value.  Otherwise the assignment cannot be honoured: the implementation must raise.
-Whenever the implementation raises (allowed for any step by the property's last sentence) the dense value of t must be
-unchanged and the shadow is not advanced.
+Whenever the implementation raises, the assignment must be one that cannot be honoured, the dense value of t must be
+unchanged and the shadow is not advanced; a well-formed assignment that raises is a violation.
 """
 from lib import *
 
@@ -249,8 +249,8 @@ class Prop:
                "exact comparison (entries and values are integers or multiples of 1/4)"]
     ASSUMPTIONS = ["keys: integers, slices with positive step, Ellipsis (no None, no index arrays); non-scalar values have exactly "
                    "the selected shape (broadcastable-but-different shapes are not tested either way)",
-                   "an assignment on which the implementation raises is accepted iff the dense value of t is unchanged "
-                   "afterwards (property's last sentence); the number of honoured steps is reported, not required",
+                   "an assignment on which the implementation raises is accepted iff it cannot be honoured (NumPy rejects it "
+                   "too) and the dense value of t is unchanged afterwards; a well-formed assignment that raises is a violation",
                    "non-batch tensors only (D17 is batch-only)"]
     THEOREMS = ["C11_scalar", "C11_tensor", "C11_history"]
 
@@ -554,6 +554,8 @@ class Prop:
             if rec["raised"]:
                 if not self._same(rec, x):
                     return False, "step %d raised %s but t changed" % (i, rec.get("err"))
+                if y is not None:
+                    return False, "step %d: a well-formed assignment was rejected with %s (t unchanged)" % (i, rec.get("err"))
                 continue
             if y is None:
                 what = "did nothing" if self._same(rec, x) else "changed t"
